@@ -1,7 +1,7 @@
 (* The memory-writer operations of every stream-building function, regenerated from the source (Generated.section_ops),
    against the way Image.v models each function. *)
 From Coq Require Import List NArith Arith Bool String.
-From MDW Require Import GenTypes Generated.
+From MDW Require Import GenTypes Generated PlanProofs.
 Import ListNotations.
 
 (* ---------- the memory-writer operations of every stream-building function, regenerated from the source ----------
@@ -48,4 +48,20 @@ Proof. reflexivity. Qed.
 Theorem flushes_match_plan : List.length (filter (fun o => match o with Op_dir_flush => true | _ => false end)
                                        (match find (fun p => String.eqb (fst p) "minidump_writer::generate_dump") section_ops with Some p => snd p | None => [] end))
                              = S (List.length (filter (fun p => match fst p with St_resume_threads => false | _ => true end) stream_plan)).
+Proof. reflexivity. Qed.
+
+(* ---------- the stream type each step of the plan gives its directory entry, by the NAME used in the source ----------
+   (numbers: the MINIDUMP_STREAM_TYPE values of the format, as minidump-common declares them) *)
+Definition stream_numbers : list (string * N) := [
+  ("ThreadListStream", 3%N); ("ModuleListStream", 4%N); ("MemoryListStream", 5%N); ("ExceptionStream", 6%N); ("SystemInfoStream", 7%N);
+  ("HandleDataStream", 12%N); ("MemoryInfoListStream", 16%N); ("ThreadNamesStream", 24%N);
+  ("LinuxCpuInfo", 0x47670003%N); ("LinuxProcStatus", 0x47670004%N); ("LinuxLsbRelease", 0x47670005%N); ("LinuxCmdLine", 0x47670006%N);
+  ("LinuxEnviron", 0x47670007%N); ("LinuxAuxv", 0x47670008%N); ("LinuxMaps", 0x47670009%N); ("LinuxDsoDebug", 0x4767000A%N);
+  ("MozLinuxLimits", 0x4d7a0003%N); ("MozSoftErrors", 0x4d7a0004%N)].
+Definition stream_number (nm : string) : option N := option_map snd (find (fun p => String.eqb (fst p) nm) stream_numbers).
+(* every step of the plan that writes a directory entry names, in the source, the stream type the model gives it
+   (PlanProofs.stream_type, which Image.v uses), in plan order *)
+Theorem step_types_as_modelled :
+  map (fun p => (fst p, stream_number (snd p))) step_stream_names
+  = flat_map (fun p => match PlanProofs.stream_type (fst p) with Some t => [(fst p, Some t)] | None => [] end) stream_plan.
 Proof. reflexivity. Qed.
